@@ -40,17 +40,20 @@ def lattice_interfaces(n):
     return [k + 0.5 for k in range(n)]
 
 
-def initial_orders(i):
-    """Initial path for ensemble index i (0 = [0-], i>=1 = [(i-1)+])."""
+def initial_orders(i, top=None):
+    """Initial path for ensemble index i (0 = [0-], i>=1 = [(i-1)+]); `top` >= i: how far it reaches
+    (default i: just over its own interface, which makes the initial weight matrix triangular and
+    the initial swap matrix the identity)."""
     if i == 0:
         return [1, 0, -1, 0, 1]
-    return list(range(0, i + 1)) + list(range(i - 1, -1, -1))
+    top = max(i, top or i)
+    return list(range(0, top + 1)) + list(range(top - 1, -1, -1))
 
 
 def write_setup(wd, n_intf=3, moves=None, workers=1, steps=10, seed=0, cap=None, maxlength=400,
                 allowmaxlength=False, n_jumps=2, delete_old=False, delete_old_all=False,
                 lambda_minus_one=None, wall=-4, screen=0, quantis=False, extra_engine=None,
-                ensemble_engines=None, keep_traj_fnames=None, zeroswap=None):
+                ensemble_engines=None, keep_traj_fnames=None, zeroswap=None, init_reach=None):
     import tomli_w
     from infretis.classes.formatter import PathStorage
     from infretis.classes.path import Path
@@ -91,7 +94,7 @@ def write_setup(wd, n_intf=3, moves=None, workers=1, steps=10, seed=0, cap=None,
     os.makedirs(src, exist_ok=True)
     store = PathStorage()
     for i in range(n_intf):
-        orders = initial_orders(i)
+        orders = initial_orders(i, (init_reach or {}).get(i) if isinstance(init_reach, dict) else (init_reach[i] if init_reach else None))
         fn = os.path.join(src, f"init{i}.lat")
         with open(fn, "w") as f:
             for o in orders:
